@@ -401,6 +401,18 @@ def gen_scenes(ctx):
         lines.append("scene %d %d %d %d %d %d %d %d %d %d %d" % (seed, nfree, nchain, neq, njeq, ntd, jac, cone, steps, spread, nflex))
         k = "%s:%s:%s%s" % (size, "sparse" if jac else "dense", "elliptic" if cone else "pyramidal", ":flex" if nflex else "")
         hist[k] = hist.get(k, 0) + 1
+    # directed family: few short chains and NO free bodies, so that joint equalities / fixed tendons (the constraint kinds whose
+    # trees are found by the generic Jacobian-row scan of treeNext) often join ADJACENT trees through a non-first dof of one
+    # and a single dof of the next -- both Jacobian layouts (the scan has a dense and a sparse branch)
+    for i in range(1200 if thorough else 160):
+        nchain = rng.randint(2, 4)
+        njeq = rng.randint(1, 3)
+        ntd = rng.choice((0, 0, 1, 2))
+        jac = 0 if i % 3 else 1
+        seed = rng.randint(0, 10 ** 6)
+        lines.append("scene %d %d %d %d %d %d %d %d %d %d %d" % (seed, 0, nchain, rng.choice((0, 0, 1)), njeq, ntd, jac, rng.randint(0, 1), rng.choice((0, 0, 1, 3)), 0, 0))
+        k = "adjacent-chains:%s" % ("sparse" if jac else "dense")
+        hist[k] = hist.get(k, 0) + 1
     ctx.extra["scene_distribution"] = hist
     return lines
 
